@@ -40,10 +40,10 @@ def bounds_regions(ctx, rule='A16'):
         ast.fix_missing_locations(s)
     for nopt in (2, 3, 6):
         for v in interval.representatives([0, nopt - 1, nopt], integer=True):
-            it = interval.RegionInterp('__v', {'dv.n_opts': nopt})
+            it = interval.RegionInterp('__v', {'dv.n_opts': nopt}, helpers=interval.unit_helpers(ctx, fn))
             out, vv = it.run(body2, v)
             want = min(max(v, 0), nopt - 1)
-            ctx.ob(rule, fkey(fn, rule, f'n={nopt}:v={v}'), out.kind == 'fall' and vv == want, fn.where,
+            ctx.ob(rule, fkey(fn, rule, f'n={nopt}:v={v}'), out.kind in ('fall', 'continue') and vv == want, fn.where,
                    f'entry {v} of a variable with {nopt} options is corrected to {want}', f'{out.kind} {vv}',
                    nontrivial=(v in (-1, 0, nopt - 1, nopt)))
     t = FnText(ctx, fn)
@@ -57,20 +57,44 @@ def bounds_regions(ctx, rule='A16'):
            'a vector longer than the declared variables is truncated (the surplus is reported separately)', '')
 
 
+def _rejected_option_counts(cfg):
+    """Option counts k for which some guard on `.n_opts` leads to a raise (one offending element, the rest fine):
+    plain comparisons, `any(<cmp> for ...)`, `not all(<cmp> for ...)`, on either branch of the test."""
+    from ..rules import intcmp
+    is_nopts = lambda e: isinstance(e, ast.Attribute) and e.attr == 'n_opts'  # noqa: E731
+    out = None
+    where = None
+    for t in cfg.nodes:
+        if t.kind != 'test' or 'n_opts' not in norm(t.ast):
+            continue
+        raising = {lab for m, lab in t.succ if m.kind == 'stmt' and isinstance(m.ast, ast.Raise)}
+        if len(raising) != 1:
+            continue
+        lab = raising.pop()
+
+        def truth(e, k):
+            if isinstance(e, ast.UnaryOp) and isinstance(e.op, ast.Not):
+                return not truth(e.operand, k)
+            if isinstance(e, ast.Call) and isinstance(e.func, ast.Name) and e.func.id in ('any', 'all') and \
+                    len(e.args) == 1 and isinstance(e.args[0], (ast.GeneratorExp, ast.ListComp)) and \
+                    not e.args[0].generators[0].ifs:
+                return truth(e.args[0].elt, k)
+            return k in intcmp.value_set(e, is_nopts, domain=tuple(range(0, 6)))
+        try:
+            s = frozenset(k for k in range(0, 6) if truth(t.ast, k) == (lab == 'T'))
+        except Exception:
+            continue
+        out, where = s, t
+        break
+    return out, where
+
+
 def publication_guards(ctx, rule='A5'):
     fn = ctx.fn(f'{LAZY}:LazyEncoder.set_settings')
     cfg = build_cfg(fn)
-    raises = [n for n in cfg.nodes if n.kind == 'stmt' and isinstance(n.ast, ast.Raise)]
-    t = [p for r in raises for p, lab in r.pred if p.kind == 'test' and lab == 'T']
-    ok = False
-    if t:
-        try:
-            from ..rules import intcmp
-            s = intcmp.value_set(t[0].ast, lambda e: isinstance(e, ast.Attribute) and e.attr == 'n_opts',
-                                 domain=tuple(range(0, 6)))
-            ok = s == frozenset({0, 1})
-        except Exception:
-            ok = False
+    rej, tn = _rejected_option_counts(cfg)
+    t = [tn] if tn is not None else []
+    ok = rej == frozenset({0, 1})
     ctx.ob(rule, fkey(fn, rule, 'lazy-two-options-check'), ok, fn.where,
            'a lazily encoded variable with fewer than 2 options is refused (raise) before the encoder is used',
            short(t[0].ast) if t else 'missing')
@@ -83,18 +107,9 @@ def publication_guards(ctx, rule='A5'):
     ge = ctx.fn(f'{ENC}:EagerEncoder.get_design_variables')
     cfg2 = build_cfg(ge)
     rets = guards.return_nodes(cfg2)
-    loops = [n for n in cfg2.nodes if n.kind == 'for' and 'design_vars' in norm(n.ast.iter)]
-    tt = [n for n in cfg2.nodes if n.kind == 'test' and 'n_opts' in norm(n.ast)]
-    ok = bool(tt) and bool(rets)
-    if ok:
-        from ..rules import intcmp
-        try:
-            s = intcmp.value_set(tt[0].ast, lambda e: isinstance(e, ast.Attribute) and e.attr == 'n_opts',
-                                 domain=tuple(range(0, 6)))
-            ok = s == frozenset({0, 1}) and any(m.kind == 'stmt' and isinstance(m.ast, ast.Raise)
-                                                for m, lab in tt[0].succ if lab == 'T')
-        except Exception:
-            ok = False
+    rej, tn = _rejected_option_counts(cfg2)
+    tt = [tn] if tn is not None else []
+    ok = rej == frozenset({0, 1}) and bool(rets)
     ctx.ob(rule, fkey(ge, rule, 'eager-two-options-check'), ok, ge.where,
            'an eagerly encoded variable with fewer than 2 options is refused (raise)', short(tt[0].ast) if tt else '')
     t2 = FnText(ctx, ge)
